@@ -656,8 +656,10 @@ def _post_shutdown(obs):
     with watchdog.polling():
         obs.post_quiescent = watchdog.wait_quiescent(5.0, director=w.director, need=3)
     w.log.add('post.check')
-    obs.live_stage_threads = [t.name for t in threading.enumerate()
-                              if t.name.startswith(('vf-request', 'vf-submission', 'vf-io')) and t.is_alive()]
+    # the worker threads of THIS manager's executors (an earlier case of the same worker process that timed out may have left
+    # threads with the same names behind)
+    mine = [t for ex in getattr(obs.execs, 'made', ()) for t in list(getattr(ex, '_threads', ()))]
+    obs.live_stage_threads = [t.name for t in mine if t.is_alive()]
 
 
 def _main_thread_asleep(tid):
@@ -667,6 +669,17 @@ def _main_thread_asleep(tid):
         return st[st.rfind(')') + 2:].split()[0] == 'S'
     except OSError:
         return False
+
+
+def _main_waiting_for_transfers(main_ident):
+    """True while the main thread is inside TransferCoordinatorController.wait() (the part of shutdown that waits for the transfers),
+    as opposed to the joins of the executors that follow it."""
+    fr = sys._current_frames().get(main_ident)
+    while fr is not None:
+        if fr.f_code.co_name == 'wait' and fr.f_code.co_filename.endswith('manager.py'):
+            return True
+        fr = fr.f_back
+    return False
 
 
 def _drive_kbi(obs, mgr, xfers, spec, mode, start_results):
@@ -695,6 +708,12 @@ def _drive_kbi(obs, mgr, xfers, spec, mode, start_results):
                     continue
                 if state['in_call'] and _main_thread_asleep(main_tid):
                     time.sleep(0.002)
+                    if spec.get('kbi_only_in_wait') and not _main_waiting_for_transfers(main_ident):
+                        # the interrupt is only delivered while the exit is waiting for the transfers themselves; the main thread
+                        # is past that (in the joins): no interrupt in this run, and gates waiting for one are opened
+                        w.director.cancel_began = True
+                        state['skipped'] = True
+                        return
                     if _main_thread_asleep(main_tid):
                         with lock:
                             if not state['returned'] and not state['sent']:
@@ -741,8 +760,16 @@ def _drive_kbi(obs, mgr, xfers, spec, mode, start_results):
             else:
                 log.add('shutdown.begin')
                 mgr.shutdown()
-        except KeyboardInterrupt:
+        except KeyboardInterrupt as ke:
             got['kbi'] = True
+            # where the interrupt found the main thread: inside the wait for the transfers, or already in the joins of the
+            # executors that follow it (an interrupt there aborts the joins by nature)
+            names = []
+            tb = ke.__traceback__
+            while tb is not None:
+                names.append((os.path.basename(tb.tb_frame.f_code.co_filename), tb.tb_frame.f_code.co_name))
+                tb = tb.tb_next
+            got['where'] = 'wait' if ('manager.py', 'wait') in names else ('result' if ('futures.py', 'result') in names else 'joins')
         except BaseException as e:  # noqa
             got['exc'] = e
         with lock:
